@@ -40,7 +40,10 @@ func (n *MixedValueNode) AddConstraint(c constraint.Constraint) {
 	switch t := c.(type) {
 	case *constraint.TypeConstraint:
 		n.addTypeConstraint(t)
-		n.types = []string{t.Bytes().String()}
+		// A written `type: "mixed"` says nothing about the names: keep the ones of the value.
+		if name := t.Bytes().Unquote(); name.IsUserTypeName() {
+			n.types = []string{name.String()}
+		}
 
 	case *constraint.Or:
 		n.addOrConstraint(t)
